@@ -1,4 +1,4 @@
-From Tetl Require Import Lib.Base Lib.Arr C06a.Model C06a.ModelOut C06a.Spec C06a.Instances C06a.Instances2 C06a.IterModel C06a.Spec2 C06a.ModelMove.
+From Tetl Require Import Lib.Base Lib.Arr C06a.Model C06a.ModelOut C06a.Spec C06a.Instances C06a.Instances2 C06a.IterModel C06a.Spec2 C06a.ModelMove C06a.ModelSwap.
 Require Extraction.
 Require Import ExtrOcamlBasic.
 Extraction Language OCaml.
@@ -16,4 +16,5 @@ Extraction "C06a_model.ml" wire_anchor
   rev_deref rev_index rev_incr rev_decr rpos
   copy_out copy_if_out remove_copy_if_out transform1_out transform2_out copy_n_out fill_n_out generate_n_out
   reverse_copy_out rotate_copy_out unique_copy_out partition_copy_out copy_backward_out emit_spec emit_backward_spec
-  unique_mv remove_if_mv shift_left_mv shift_right_mv move_fwd_mv move_bwd_mv.
+  unique_mv remove_if_mv shift_left_mv shift_right_mv move_fwd_mv move_bwd_mv
+  uswap iter_swap_sw reverse_ra_sw reverse_bidi_sw partition_sw swap_ranges_slots.
